@@ -287,7 +287,10 @@ def _eval_over_size(g, n, store, extra):
         key = "%s:%s" % (h, g[1] if isinstance(g[1], str) else ir.path_str(g[1]))
         return extra.get(key)
     if h == "cmp":
-        return ir.eval_formula(g, {"size(this.%s)" % store: n})
+        r = ir.eval_formula(g, {"size(this.%s)" % store: n})
+        if r is None:
+            return extra.get("atom:%r" % (g,))      # a comparison of something else (a memo's key): either way
+        return r
     return None
 
 
@@ -296,6 +299,8 @@ def _other_atoms(g, store):
     for a in ir.walk_formula(g):
         if a[0] in ("nonempty", "nz", "present") and not (a[0] == "nonempty" and a[1] == ("this", store)):
             out.add("%s:%s" % (a[0], a[1] if isinstance(a[1], str) else ir.path_str(a[1])))
+        elif a[0] == "cmp" and ir.eval_formula(a, {"size(this.%s)" % store: 1}) is None:
+            out.add("atom:%r" % (a,))
     return out
 
 
@@ -346,7 +351,7 @@ def index_complete_where_used(facts, T, fd, store, index, writers_of_index):
             continue
         n_fn += 1
         atoms = sorted(set().union(*[_other_atoms(g, store) for g in gs + g_use]))
-        if len(atoms) > 4:
+        if len(atoms) > 7:
             unknown = True
             continue
         for n in range(1, 41):
